@@ -643,7 +643,7 @@ impl World {
             self.facts.merge(new_facts);
             if self.facts.len() == len {
                 // the fact budget also holds when no rule produced anything new
-                if self.facts.len() > limits.max_facts as usize {
+                if self.facts.len() >= limits.max_facts as usize {
                     break Err(Execution::RunLimit(crate::error::RunLimit::TooManyFacts));
                 }
                 break Ok(());
